@@ -1,5 +1,273 @@
 import Pff.Model.Layout
-/-! Helper lemmas for C10 (block layout). -/
+/-! Helper lemmas for C10 (block layout).  Core Lean only. -/
 namespace Pff.Layout
+
+/-! ## generic list facts -/
+
+theorem slice_length (content : Bytes) (b : Block) :
+    (slice content b).length = min b.len (content.length - b.off) := by
+  simp only [slice, List.length_take, List.length_drop]
+
+/-- reading `k` bytes at `c` is the slice of length `min k (n - c)` -/
+theorem read_eq_slice (content : Bytes) (c k : Nat) :
+    (content.drop c).take k = slice content ⟨c, min k (content.length - c), k⟩ := by
+  simp only [slice]
+  rw [List.take_eq_take_iff, List.length_drop]
+  omega
+
+/-- reading `k` bytes at `i` of the first `hs` bytes is the slice of length `min k (min hs n - i)` -/
+theorem read_header_eq_slice (content : Bytes) (hs i k : Nat) :
+    ((content.take hs).drop i).take k =
+      slice content ⟨i, min k (min hs content.length - i), k⟩ := by
+  simp only [slice]
+  rw [List.drop_take, List.take_take, List.take_eq_take_iff, List.length_drop]
+  omega
+
+/-- the chunk `hsh ++ ecc` sitting at position `pre.length` of a track is read back exactly -/
+theorem track_read (pre hsh ecc rest : Bytes) (hashLen eccLen : Nat)
+    (hh : hsh.length = hashLen) (he : ecc.length = eccLen) :
+    ((pre ++ ((hsh ++ ecc) ++ rest)).drop pre.length).take (hashLen + eccLen) = hsh ++ ecc := by
+  rw [List.drop_left]
+  apply List.take_left'
+  simp only [List.length_append, hh, he]
+
+theorem track_read_hash (pre hsh ecc rest : Bytes) (hashLen : Nat)
+    (hh : hsh.length = hashLen) :
+    ((pre ++ ((hsh ++ ecc) ++ rest)).drop pre.length).take hashLen = hsh := by
+  rw [List.drop_left, List.append_assoc]
+  exact List.take_left' hh
+
+theorem track_read_ecc (pre hsh ecc rest : Bytes) (hashLen eccLen : Nat)
+    (hh : hsh.length = hashLen) (he : ecc.length = eccLen) :
+    ((pre ++ ((hsh ++ ecc) ++ rest)).drop (pre.length + hashLen)).take eccLen = ecc := by
+  have h1 : pre ++ ((hsh ++ ecc) ++ rest) = (pre ++ hsh) ++ (ecc ++ rest) := by
+    simp only [List.append_assoc]
+  rw [h1, List.drop_left' (by simp only [List.length_append, hh])]
+  exact List.take_left' he
+
+/-! ## whole-file tool: generation layout -/
+
+theorem layoutGen_nil_of_ge (kOf : Nat → Nat) (size : Nat) (fuel c : Nat) (h : size ≤ c) :
+    layoutGen kOf size fuel c = [] := by
+  cases fuel with
+  | zero => rfl
+  | succ fuel =>
+    simp only [layoutGen]
+    rw [if_neg (by omega)]
+
+theorem layoutGen_cons (kOf : Nat → Nat) (size : Nat) (fuel c : Nat) (h : c < size) :
+    layoutGen kOf size (fuel + 1) c =
+      ⟨c, min (kOf c) (size - c), kOf c⟩ ::
+        layoutGen kOf size fuel (c + min (kOf c) (size - c)) := by
+  simp only [layoutGen]
+  rw [if_pos h]
+
+theorem layoutGen_tiles (kOf : Nat → Nat) (hk : ∀ x, 1 ≤ kOf x) (size : Nat) :
+    ∀ fuel c, c ≤ size → size - c < fuel → Tiles (layoutGen kOf size fuel c) c size := by
+  intro fuel
+  induction fuel with
+  | zero => intro c _ h; omega
+  | succ fuel ih =>
+    intro c hc hf
+    by_cases h : c < size
+    · rw [layoutGen_cons kOf size fuel c h]
+      have := hk c
+      refine ⟨rfl, ?_, ?_⟩
+      · show 1 ≤ min (kOf c) (size - c)
+        omega
+      · show Tiles _ (c + min (kOf c) (size - c)) size
+        apply ih <;> omega
+    · rw [layoutGen_nil_of_ge kOf size _ c (by omega)]
+      show c = size
+      omega
+
+/-- every generated block: own `k`, starts inside the file, length is `min k (remaining)` -/
+theorem layoutGen_mem (kOf : Nat → Nat) (size : Nat) :
+    ∀ fuel c b, b ∈ layoutGen kOf size fuel c →
+      b.k = kOf b.off ∧ b.off < size ∧ b.len = min b.k (size - b.off) := by
+  intro fuel
+  induction fuel with
+  | zero => intro c b hb; simp only [layoutGen, List.not_mem_nil] at hb
+  | succ fuel ih =>
+    intro c b hb
+    by_cases h : c < size
+    · rw [layoutGen_cons kOf size fuel c h, List.mem_cons] at hb
+      rcases hb with rfl | hb
+      · exact ⟨rfl, h, rfl⟩
+      · exact ih _ b hb
+    · rw [layoutGen_nil_of_ge kOf size _ c (by omega)] at hb
+      simp only [List.not_mem_nil] at hb
+
+/-! ## whole-file tool: reading back -/
+
+/-- one iteration of `assemble` on a track whose chunk at `pre.length` is `hsh ++ ecc` -/
+theorem assemble_step (kOf : Nat → Nat) (hashLen mbs : Nat) (content pre hsh ecc rest : Bytes)
+    (fuel c : Nat) (hc : c < content.length) (hk : 1 ≤ kOf c)
+    (hh : hsh.length = hashLen) (he : ecc.length = mbs - kOf c)
+    (hpos : 1 ≤ hashLen + (mbs - kOf c)) :
+    assemble kOf hashLen mbs content (pre ++ ((hsh ++ ecc) ++ rest)) (fuel + 1) c pre.length =
+      ⟨c, slice content ⟨c, min (kOf c) (content.length - c), kOf c⟩, kOf c, hsh, ecc⟩ ::
+        assemble kOf hashLen mbs content ((pre ++ (hsh ++ ecc)) ++ rest) fuel
+          (c + min (kOf c) (content.length - c)) (pre ++ (hsh ++ ecc)).length := by
+  have hlt : pre.length < (pre ++ ((hsh ++ ecc) ++ rest)).length := by
+    simp only [List.length_append, hh, he]; omega
+  have hmes := read_eq_slice content c (kOf c)
+  have hlen : (slice content ⟨c, min (kOf c) (content.length - c), kOf c⟩).length =
+      min (kOf c) (content.length - c) := by
+    rw [slice_length]; show min (min _ _) (_ - c) = _; omega
+  have hne : (slice content ⟨c, min (kOf c) (content.length - c), kOf c⟩).isEmpty = false := by
+    cases hs : slice content ⟨c, min (kOf c) (content.length - c), kOf c⟩ with
+    | nil => rw [hs] at hlen; simp only [List.length_nil] at hlen; omega
+    | cons _ _ => rfl
+  have hbuf := track_read pre hsh ecc rest hashLen (mbs - kOf c) hh he
+  simp only [assemble]
+  rw [if_pos hlt, hmes, hbuf, hne, hlen]
+  have h1 : (hsh ++ ecc).take hashLen = hsh := List.take_left' hh
+  have h2 : (hsh ++ ecc).drop hashLen = ecc := List.drop_left' hh
+  simp only [Bool.false_eq_true, if_false, h1, h2, List.length_append, List.append_assoc]
+
+theorem assemble_agree (kOf : Nat → Nat) (hk : ∀ x, 1 ≤ kOf x) (hashLen mbs : Nat)
+    (H : Bytes → Bytes) (enc : Nat → Bytes → Bytes)
+    (hH : ∀ m, (H m).length = hashLen)
+    (henc : ∀ k m, 1 ≤ m.length → m.length ≤ k → (enc k m).length = mbs - k)
+    (hpos : ∀ x, 1 ≤ hashLen + (mbs - kOf x))
+    (content : Bytes) :
+    ∀ fuel c pre,
+      assemble kOf hashLen mbs content
+          (pre ++ ((layoutGen kOf content.length fuel c).map
+            (fun b => H (slice content b) ++ enc b.k (slice content b))).flatten) fuel c pre.length =
+        (layoutGen kOf content.length fuel c).map
+          (fun b => { off := b.off, msg := slice content b, k := b.k,
+                      hash := H (slice content b), ecc := enc b.k (slice content b) }) := by
+  intro fuel
+  induction fuel with
+  | zero => intro c pre; rfl
+  | succ fuel ih =>
+    intro c pre
+    by_cases h : c < content.length
+    · rw [layoutGen_cons kOf content.length fuel c h]
+      simp only [List.map_cons, List.flatten_cons]
+      have hkc := hk c
+      have hlen : (slice content ⟨c, min (kOf c) (content.length - c), kOf c⟩).length =
+          min (kOf c) (content.length - c) := by
+        rw [slice_length]; show min (min _ _) (_ - c) = _; omega
+      rw [assemble_step kOf hashLen mbs content pre _ _ _ fuel c h hkc (hH _)
+        (henc _ _ (by omega) (by omega)) (hpos c)]
+      rw [ih _ (pre ++ _)]
+    · rw [layoutGen_nil_of_ge kOf content.length _ c (by omega)]
+      simp only [List.map_nil, List.flatten_nil, List.append_nil, assemble]
+      rw [if_neg (by omega)]
+
+theorem sum_map_eq {α : Type} (l : List α) (f g : α → Nat) (h : ∀ a ∈ l, f a = g a) :
+    (l.map f).sum = (l.map g).sum := by
+  rw [List.map_congr_left h]
+
+/-! ## header tool -/
+
+theorem layoutHeader_nil_of_ge (k hs size : Nat) (fuel i : Nat) (h : min hs size ≤ i) :
+    layoutHeader k hs size fuel i = [] := by
+  cases fuel with
+  | zero => rfl
+  | succ fuel =>
+    simp only [layoutHeader]
+    rw [if_neg (by omega)]
+
+theorem layoutHeader_cons (k hs size : Nat) (fuel i : Nat) (h : i < min hs size) :
+    layoutHeader k hs size (fuel + 1) i =
+      ⟨i, min k (min hs size - i), k⟩ :: layoutHeader k hs size fuel (i + k) := by
+  simp only [layoutHeader]
+  rw [if_pos h]
+
+theorem layoutHeader_tiles (k hs size : Nat) (hk : 1 ≤ k) :
+    ∀ fuel i, i ≤ min hs size → min hs size - i < fuel →
+      Tiles (layoutHeader k hs size fuel i) i (min hs size) := by
+  intro fuel
+  induction fuel with
+  | zero => intro i _ h; omega
+  | succ fuel ih =>
+    intro i hi hf
+    by_cases h : i < min hs size
+    · rw [layoutHeader_cons k hs size fuel i h]
+      refine ⟨rfl, ?_, ?_⟩
+      · show 1 ≤ min k (min hs size - i)
+        omega
+      · show Tiles _ (i + min k (min hs size - i)) (min hs size)
+        by_cases h2 : i + k ≤ min hs size
+        · have : min k (min hs size - i) = k := by omega
+          rw [this]
+          apply ih <;> omega
+        · rw [layoutHeader_nil_of_ge k hs size _ _ (by omega)]
+          show i + min k (min hs size - i) = min hs size
+          omega
+    · rw [layoutHeader_nil_of_ge k hs size _ i (by omega)]
+      show i = min hs size
+      omega
+
+theorem layoutHeader_mem (k hs size : Nat) :
+    ∀ fuel i b, b ∈ layoutHeader k hs size fuel i →
+      b.k = k ∧ b.off < min hs size ∧ b.len = min k (min hs size - b.off) := by
+  intro fuel
+  induction fuel with
+  | zero => intro i b hb; simp only [layoutHeader, List.not_mem_nil] at hb
+  | succ fuel ih =>
+    intro i b hb
+    by_cases h : i < min hs size
+    · rw [layoutHeader_cons k hs size fuel i h, List.mem_cons] at hb
+      rcases hb with rfl | hb
+      · exact ⟨rfl, h, rfl⟩
+      · exact ih _ b hb
+    · rw [layoutHeader_nil_of_ge k hs size _ i (by omega)] at hb
+      simp only [List.not_mem_nil] at hb
+
+theorem assembleHeader_step (k hashLen mbs hs : Nat) (content pre hsh ecc rest : Bytes)
+    (fuel i : Nat) (hi : i < min hs content.length)
+    (hh : hsh.length = hashLen) (he : ecc.length = mbs - k)
+    (hpos : 1 ≤ hashLen + (mbs - k)) :
+    assembleHeader k hashLen mbs hs content (pre ++ ((hsh ++ ecc) ++ rest)) (fuel + 1) i pre.length =
+      ⟨i, slice content ⟨i, min k (min hs content.length - i), k⟩, k, hsh, ecc⟩ ::
+        assembleHeader k hashLen mbs hs content ((pre ++ (hsh ++ ecc)) ++ rest) fuel
+          (i + k) (pre ++ (hsh ++ ecc)).length := by
+  have hlt : pre.length < (pre ++ ((hsh ++ ecc) ++ rest)).length := by
+    simp only [List.length_append, hh, he]; omega
+  have hcond : i < (content.take hs).length ∧ pre.length < (pre ++ ((hsh ++ ecc) ++ rest)).length := by
+    refine ⟨?_, hlt⟩
+    rw [List.length_take]; exact hi
+  simp only [assembleHeader]
+  rw [if_pos hcond, read_header_eq_slice, track_read_hash pre hsh ecc rest hashLen hh,
+    track_read_ecc pre hsh ecc rest hashLen (mbs - k) hh he]
+  simp only [List.length_append, List.append_assoc, hh, he, Nat.add_assoc]
+
+theorem assembleHeader_agree (k hashLen mbs hs : Nat) (hk : 1 ≤ k)
+    (H : Bytes → Bytes) (enc : Nat → Bytes → Bytes)
+    (hH : ∀ m, (H m).length = hashLen)
+    (henc : ∀ m, 1 ≤ m.length → m.length ≤ k → (enc k m).length = mbs - k)
+    (hpos : 1 ≤ hashLen + (mbs - k))
+    (content : Bytes) :
+    ∀ fuel i pre,
+      assembleHeader k hashLen mbs hs content
+          (pre ++ ((layoutHeader k hs content.length fuel i).map
+            (fun b => H (slice content b) ++ enc b.k (slice content b))).flatten) fuel i pre.length =
+        (layoutHeader k hs content.length fuel i).map
+          (fun b => { off := b.off, msg := slice content b, k := b.k,
+                      hash := H (slice content b), ecc := enc b.k (slice content b) }) := by
+  intro fuel
+  induction fuel with
+  | zero => intro i pre; rfl
+  | succ fuel ih =>
+    intro i pre
+    by_cases h : i < min hs content.length
+    · rw [layoutHeader_cons k hs content.length fuel i h]
+      simp only [List.map_cons, List.flatten_cons]
+      have hlen : (slice content ⟨i, min k (min hs content.length - i), k⟩).length =
+          min k (min hs content.length - i) := by
+        rw [slice_length]; show min (min _ _) (_ - i) = _; omega
+      rw [assembleHeader_step k hashLen mbs hs content pre _ _ _ fuel i h (hH _)
+        (henc _ (by omega) (by omega)) hpos]
+      rw [ih _ (pre ++ _)]
+    · rw [layoutHeader_nil_of_ge k hs content.length _ i (by omega)]
+      simp only [List.map_nil, List.flatten_nil, List.append_nil, assembleHeader]
+      rw [if_neg]
+      rw [List.length_take]
+      omega
 
 end Pff.Layout
